@@ -313,11 +313,17 @@ class WsgiModuleServer(WsgiServer):
         self.backend = ns["backend"]
         self.app = WellknownRedirector(ns["app"], self.prefix)
 
+    # how the container splits a well-known URL between SCRIPT_NAME and PATH_INFO: the redirector
+    # mounted at the server root ("root": SCRIPT_NAME "", PATH_INFO the whole path), at an alias for
+    # /.well-known ("alias": SCRIPT_NAME "/.well-known", PATH_INFO "/caldav") or at the exact URL
+    # ("exact": SCRIPT_NAME the whole path, PATH_INFO "")
+    wellknown_mount = "root"
+
     def request(self, method, target, headers=None, body=b""):
-        if target.split("?")[0].startswith("/.well-known/") and self.script_name:
-            # the redirector is mounted at the server root
+        path = target.split("?")[0]
+        if path.startswith("/.well-known/"):
             saved = self.script_name
-            self.script_name = ""
+            self.script_name = {"root": "", "alias": "/.well-known", "exact": path}[self.wellknown_mount]
             try:
                 return super().request(method, target, headers, body)
             finally:
